@@ -67,6 +67,8 @@ def run_case(arg):
                           budget_s=case.get("budget_s", 150 if tier == "quick" else 1500))
         st["functions"] = sorted(funcs)
         st["status"] = "ok"
+        # a search-only case (all its obligations are hunts): nothing is claimed from it, so reaching no obligation or running out of budget is not a failure
+        st["allow_empty"] = st["hunt_only"] = bool(case.get("hunt_only"))
     except symx.Inconclusive as e:
         st = dict(status="inconclusive", error=f"{type(e).__name__}: {e}", trace=traceback.format_exc()[-1500:])
     except BaseException as e:  # harness error
@@ -246,7 +248,7 @@ def main(argv=None):
             cexs.append(dict(case=r["case"], **c))
         for u in r["unknown"]:
             unknowns.append(dict(case=r["case"], **u))
-        if r.get("truncated") and not r["cex"]:
+        if r.get("truncated") and not r["cex"] and not r.get("hunt_only"):
             truncated.append(r["case"])
         per_case.append(dict(case=r["case"], paths=r["paths"], obligations=r["obligations"], queries=r["queries"],
                              solver_s=r["solver_s"], wall_s=r["case_wall_s"]))
@@ -283,6 +285,13 @@ def main(argv=None):
                 continue
             cex = dict(cex, property=pid, ob=c["ob"], case=c["case"])
             rep, detail, path = replay_real(pid, cex, out_dir, f"{tier}_{i}")
+            # other models of the same query (non-robust / differently robust): any one that reproduces on the real stack is a witness
+            for k, alt in enumerate(c.get("alt_cex") or []):
+                if rep is True or alt is None:
+                    break
+                rep2, detail2, path2 = replay_real(pid, dict(alt, property=pid, ob=c["ob"], case=c["case"]), out_dir, f"{tier}_{i}_alt{k}")
+                if rep2 is True:
+                    rep, detail, path = rep2, detail2, path2
             res.append((c, rep, detail, path))
             if rep is True:
                 break
